@@ -498,4 +498,5 @@ def run(an: Analysis, rep):
     rep.run(c07.r071, an, shj, enc, cdec, defs)
     rep.run(c07.r073, an, shj, enc)
     rep.run(c07.r07a, an, shj, enc)
+    rep.run(c07.r07b, an, shj, defs)
     rep.stats.update(an.stats([it]))
